@@ -26,7 +26,7 @@ FACTOR = 20.0
 
 
 def floors(tier):
-    return {"runs": 400, "runs_with_bound_at_start": 150, "runs_with_active_bound_at_end": 150, "outward_start_runs": 60, "lattice_least_squares_runs": 60, "runs_with_inert_differencing_settings": 100, "runs_continued_from_a_target_stop": 150, "runs_with_user_step_cap_below_one": 60, "runs_preceded_by_another_problem_on_the_same_box": 150, "runs_with_free_optimum_grazing_a_bound": 60, "__nontrivial__": 150}
+    return {"runs": 400, "runs_with_bound_at_start": 150, "runs_with_active_bound_at_end": 150, "outward_start_runs": 60, "lattice_least_squares_runs": 60, "runs_with_inert_differencing_settings": 100, "runs_continued_from_a_target_stop": 150, "runs_with_user_step_cap_below_one": 60, "runs_preceded_by_another_problem_on_the_same_box": 150, "runs_with_free_optimum_grazing_a_bound": 60, "runs_in_30_to_90_dimensions_with_memory_above_10": 40, "__nontrivial__": 150}
 
 
 def exhaustive(tier):
@@ -44,6 +44,12 @@ def cases(tier, seed):
         yield {"kind": "random", "problem": ps, "maxcor": int(rng.integers(1, 11)), "fd_step": float(gen.pick(rng, [1e-3, 1e-2, 0.1])) if i % 5 == 3 else None,
                "target_frac": float(rng.uniform(0.05, 0.7)) if i % 3 == 0 else None, "restart_maxcor": int(rng.integers(1, 11)),
                "step_cap": float(gen.pick(rng, [0.3, 0.5, 0.9])) if i % 10 == 4 else None, "twin_first": bool(i % 4 == 1)}
+    for i in range(80 if tier == "quick" else 2500):
+        # scale: dimensions, memories and active sets larger than the bulk of the cases
+        ps = gen.rand_spec(rng, gen.CONVEX, nmax=90, nmin=30, boxes=("mixed", "boxed", "narrow", "lower", "boxed_degenerate", "nonneg", "none"),
+                           starts=("interior", "face", "vertex", "outward"), condmax=1e3)
+        yield {"kind": "random", "problem": ps, "maxcor": int(rng.integers(11, 36)), "fd_step": None, "target_frac": float(rng.uniform(0.05, 0.7)) if i % 4 == 0 else None,
+               "restart_maxcor": int(rng.integers(11, 36)), "step_cap": None, "twin_first": False, "large": True}
     for i in range(200 if tier == "quick" else 6000):
         yield {"kind": "lattice", "problem": {"n": int(rng.integers(1, 7)), "seed": int(rng.integers(0, 2**31 - 1)), "w": float(gen.pick(rng, [1.0, 1.0, 1.0, 0.5, 2.0, 3.0])),
                                               "cut": bool(rng.random() < 0.4)}, "maxcor": int(rng.integers(1, 11))}
@@ -199,6 +205,8 @@ def run(spec):
         cfg["eps"] = spec["fd_step"]
         cfg["finite_diff_rel_step"] = spec["fd_step"]
         out.count("runs_with_inert_differencing_settings")
+    if spec.get("large"):
+        out.count("runs_in_30_to_90_dimensions_with_memory_above_10")
     if spec.get("twin_first") and spec["kind"] == "random":
         # another convex problem on the same box from the same start is solved first, in the same process (a parameter study): the two
         # runs share their first trial points (vertices of the box); nothing of the first run may reach the second
